@@ -436,9 +436,6 @@ Proof.
 Qed.
 
 (** ** the state-changing part: the vftable item *)
-Definition mod_eq (m m' : smodule) : Prop :=
-  m_path m = m_path m' /\ m_ast m = m_ast m' /\ m_impls m = m_impls m' /\
-  m_extern_values m = m_extern_values m'.
 Definition mods_agree (ms ms' : list (path * smodule)) : Prop :=
   forall k, match alookup k ms, alookup k ms' with
             | Some m, Some m' => mod_eq m m'
